@@ -114,14 +114,18 @@ def unroll(repo, f):
                         if isinstance(tg, ast.Tuple) and not (isinstance(r, (ast.Tuple, ast.List)) and len(r.elts) == len(names)):
                             ok = False
                     if ok:
-                        locals_ = _stored(st.body) - {n.id for n in names}
-                        # locals read after the loop keep their (last-iteration) name
+                        stored = _stored(st.body)
+                        locals_ = stored - {n.id for n in names}
+                        rebound = stored & {n.id for n in names}
                         k = count[0]
                         count[0] += 1
                         for i, r in enumerate(rows):
                             vals = [r] if isinstance(tg, ast.Name) else list(r.elts)
                             consts = {n.id: v for n, v in zip(names, vals)}
-                            ren = {l: f"{l}__u{k}_{i}" for l in locals_}
+                            ren = {l: f"{l}__u{k}_{i}" for l in locals_ | rebound}
+                            for t in sorted(rebound):
+                                out.append(ast.Assign(targets=[ast.Name(id=ren[t], ctx=ast.Store())], value=copy.deepcopy(consts[t]), lineno=getattr(st, "lineno", 0), col_offset=0))
+                            consts = {k_: v for k_, v in consts.items() if k_ not in rebound}
                             for b in st.body:
                                 nb = _Sub(consts, ren).visit(copy.deepcopy(b))
                                 ast.fix_missing_locations(nb)
@@ -131,6 +135,38 @@ def unroll(repo, f):
         return out
     f.node.body = rewrite(f.node.body)
     return count[0]
+
+
+_BITWISE = {"np.bitwise_or": ast.BitOr, "np.bitwise_and": ast.BitAnd, "np.bitwise_xor": ast.BitXor, "operator.or_": ast.BitOr, "operator.and_": ast.BitAnd}
+
+
+class _Synonyms(ast.NodeTransformer):
+    """exact synonyms, applied to every function: getattr(x, "name") -> x.name; vars(x) -> x.__dict__;
+    np.bitwise_or(a, b) -> a | b (likewise and/xor); np.invert(a) / np.bitwise_not(a) -> ~a"""
+    def visit_Call(self, n):
+        self.generic_visit(n)
+        f = U(n.func)
+        if isinstance(n.func, ast.Name) and n.func.id == "getattr" and len(n.args) == 2 and not n.keywords and isinstance(n.args[1], ast.Constant) \
+                and isinstance(n.args[1].value, str) and n.args[1].value.isidentifier():
+            return ast.copy_location(ast.Attribute(value=n.args[0], attr=n.args[1].value, ctx=ast.Load()), n)
+        if f == "vars" and len(n.args) == 1 and not n.keywords:
+            return ast.copy_location(ast.Attribute(value=n.args[0], attr="__dict__", ctx=ast.Load()), n)
+        if f in _BITWISE and len(n.args) == 2 and not n.keywords:
+            return ast.copy_location(ast.BinOp(left=n.args[0], op=_BITWISE[f](), right=n.args[1]), n)
+        if f in ("np.invert", "np.bitwise_not") and len(n.args) == 1 and not n.keywords:
+            return ast.copy_location(ast.UnaryOp(op=ast.Invert(), operand=n.args[0]), n)
+        return n
+
+
+def apply_synonyms(repo):
+    n = 0
+    for f in repo.funcs.values():
+        before = ast.dump(f.node)
+        f.node = _Synonyms().visit(f.node)
+        ast.fix_missing_locations(f.node)
+        if ast.dump(f.node) != before:
+            n += 1
+    return n
 
 
 class _Getattr(ast.NodeTransformer):
